@@ -6,7 +6,7 @@ import sys
 import time
 import fcntl
 
-REPO = os.environ.get('VERIF_REPO', '/repo')
+REPO = os.environ.get('VERIF_REPO') or '/repo'          # an empty value means the default, never '/'
 VERIF = os.path.dirname(os.path.dirname(os.path.dirname(os.path.abspath(__file__))))
 CACHE = os.path.join(VERIF, '.cache')
 # scratch copies of the tree are per checkout of /verif (like CACHE and its lock files): two checkouts running at the
@@ -118,7 +118,7 @@ def mir_dump():
             subprocess.run(['cp', gens[-1], os.path.join(srcdir, 'src', 'pubsub_proto_generated', 'google_pubsub_v1.rs')], check=True)
         # prune old dumps
         ents = sorted((os.path.getmtime(os.path.join(mdir, f)), f) for f in os.listdir(mdir) if f.endswith('.mir'))
-        for _, f in ents[:-6]:
+        for _, f in ents[:-40]:      # generous: a concurrent check may still be reading an older dump
             os.unlink(os.path.join(mdir, f))
             subprocess.run(['rm', '-rf', os.path.join(mdir, f[:-4] + '.src')])
         info['cached'] = False
